@@ -69,14 +69,16 @@ package config
 //@   requires nw != nil && nw.logger != nil && e != nil
 
 // legacy (JSON/YAML/TOML) watcher: a file that fails to parse yields a NamespaceFile without a
-// namespace, a file that parses one with a fresh namespace; handleChange's keep-last-good
-// branch is keyed by e.Source(), a value no contract expression can name (unexported field of
-// a dependency's type) - not claimed (DESIGN.md C19)
+// namespace, a file that parses one with a fresh namespace. keep-last-good, stated without
+// naming the key (e.Source() is the value of an unexported field of a dependency's type): no
+// file that had a parsed namespace is without one after a change event
 //@ func (*NamespaceWatcher).handleChange
 //@   props C19
 //@   noframe
 //@   requires nw != nil && nw.logger != nil && e != nil && nw.namespaces != nil
 //@   requires forall k string :: has(nw.namespaces, k) ==> nw.namespaces[k] != nil
+//@   ensures[C19] keep-last-good: forall k string :: (old(has(nw.namespaces, k)) && old(nw.namespaces[k].namespace) != nil) ==> (has(nw.namespaces, k) && nw.namespaces[k] != nil && nw.namespaces[k].namespace != nil)
+//@   ensures forall k string :: has(nw.namespaces, k) ==> nw.namespaces[k] != nil
 
 //@ func GetParser
 //@   props C19
